@@ -219,6 +219,7 @@ def validate(_, mapfiles, expand, version):
         except Exception as ex:
             logger.exception(ex)
             click.echo(f"{fn} failed to parse successfully")
+            errors += 1
             continue
 
         validation_messages = mappyfile.validate(d, version)
